@@ -28,6 +28,11 @@ def alph_c01():
         join("inner", [from_("u")], eqcol("k")),
         join("left", [from_("u")], bin_("==", col("a", "t"), col("a", "u"))),
         append(U3),
+        # values that are non-NULL on a null-extended row, outer joins, aggregation over them
+        derive(item(bin_("??", b, lit(1)), "p")),
+        join("right", [from_("u")], eqcol("k"), explicit=True),
+        join("full", [from_("u")], eqcol("k"), explicit=True),
+        group(["c"], [aggregate(item(agg("sum", col("p")), "sp"), item(agg("count", col("p")), "np"))]),
     ]
 
 def alph_c03():
